@@ -27,12 +27,15 @@ import (
 	"time"
 
 	"verifharness/vlib"
+	"verifharness/vlib/render"
 
 	pa "github.com/benoitkugler/webrender/css/parser"
 	pr "github.com/benoitkugler/webrender/css/properties"
 	"github.com/benoitkugler/webrender/css/validation"
 	"github.com/benoitkugler/webrender/html/tree"
 	"github.com/benoitkugler/webrender/logger"
+	"github.com/benoitkugler/webrender/text"
+	"github.com/benoitkugler/webrender/text/hyphen"
 	"github.com/benoitkugler/webrender/utils"
 	"golang.org/x/net/html"
 )
@@ -397,6 +400,18 @@ type world struct {
 	in     *interner
 }
 
+// the text context the layout engine hands to the style computation (font metrics for
+// ex / ch units and the strut of vertical-align percentages)
+type textCtx struct {
+	fonts  text.FontConfiguration
+	hyphen map[text.HyphenDictKey]hyphen.Hyphener
+	struts map[text.StrutLayoutKey][2]pr.Float
+}
+
+func (c *textCtx) Fonts() text.FontConfiguration                          { return c.fonts }
+func (c *textCtx) HyphenCache() map[text.HyphenDictKey]hyphen.Hyphener    { return c.hyphen }
+func (c *textCtx) StrutLayoutsCache() map[text.StrutLayoutKey][2]pr.Float { return c.struts }
+
 func build(src string) (w *world, err interface{}) {
 	defer func() {
 		if r := recover(); r != nil {
@@ -408,7 +423,9 @@ func build(src string) (w *world, err interface{}) {
 		return nil, e
 	}
 	var pageRules []tree.PageRule
-	sf := tree.GetAllComputedStyles(doc, nil, false, nil, nil, &pageRules, nil, false, nil)
+	ctx := &textCtx{fonts: render.NewFonts("pango"), hyphen: map[text.HyphenDictKey]hyphen.Hyphener{},
+		struts: map[text.StrutLayoutKey][2]pr.Float{}}
+	sf := tree.GetAllComputedStyles(doc, nil, false, ctx.fonts, nil, &pageRules, nil, false, ctx)
 	return &world{doc: doc, sf: sf, styles: tree.VerifC04Styles(sf), index: map[pr.ElementStyle]int{}}, nil
 }
 
